@@ -69,7 +69,7 @@ class FillNa(Contract):
 
 class SetNa(Contract):
     """setna(value): exactly the cells equal to the value (or to one of a list of values, or selected by a boolean mask of
-    the array's shape) become NaN; every other cell, labels and metadata are kept; integer data is promoted to float rather
+    the array's shape, or by any member of a sequence mixing values and masks) become NaN; every other cell, labels and metadata are kept; integer data is promoted to float rather
     than failing; the operand is untouched unless inplace=True.  [C17]"""
     target = "dimarray.core.missingvalues:setna"
     props = ("C17", "C15")
@@ -78,9 +78,9 @@ class SetNa(Contract):
     def cases(self, tier):
         for rank in (1, 2):
             for dk in ("f", "I"):
-                for arg in ("scalar", "list2", "mask"):
+                for arg in ("scalar", "list2", "mask", "value+mask", "mask+mask"):
                     for inplace in (False, True):
-                        if inplace and dk == "I":
+                        if inplace and (dk == "I" or "+" in arg):
                             continue
                         yield {"name": "r%d-data_%s-%s-%s" % (rank, dk, arg, "inplace" if inplace else "copy"), "rank": rank, "dk": dk, "arg": arg, "inplace": inplace}
 
@@ -94,6 +94,11 @@ class SetNa(Contract):
             env["value"] = mk("value")
         elif case["arg"] == "list2":
             env["value"] = [mk("value0"), mk("value1")]
+        elif case["arg"] == "value+mask":
+            # a sequence may mix values and masks (documented: a.setna([-99, a > 1]))
+            env["value"] = [mk("value0"), S.arraynd("mask", "b", S.shape(env["data"]))]
+        elif case["arg"] == "mask+mask":
+            env["value"] = (S.arraynd("mask", "b", S.shape(env["data"])), S.arraynd("mask1", "b", S.shape(env["data"])))
         else:
             env["value"] = S.arraynd("mask", "b", S.shape(env["data"]))
         return env
@@ -108,6 +113,10 @@ class SetNa(Contract):
             return S.land(S.lnot(S.isnan(x)), x == v)
         if case["arg"] == "list2":
             return S.land(S.lnot(S.isnan(x)), S.lor(x == v[0], x == v[1]))
+        if case["arg"] == "value+mask":
+            return S.lor(S.land(S.lnot(S.isnan(x)), x == v[0]), S.at(v[1], *p))
+        if case["arg"] == "mask+mask":
+            return S.lor(S.at(v[0], *p), S.at(v[1], *p))
         return S.at(v, *p)
 
     def post(self, S, case, env, result):
